@@ -1,7 +1,9 @@
 //! Requests concerning colour slices (C20), result archives (C16), the CLI (C17) and the
 //! aeon-to-bnet converter (C19).
 use crate::*;
+use biodivine_hctl_model_checker::analysis::{analyse_formula, analyse_formulae};
 use biodivine_hctl_model_checker::generate_output::build_result_archive;
+use biodivine_hctl_model_checker::result_print::PrintOptions;
 use biodivine_hctl_model_checker::load_inputs::{load_bdd_bundle, load_formulae};
 use biodivine_lib_param_bn::symbolic_async_graph::GraphColors;
 use std::io::Read as IoRead;
@@ -310,6 +312,68 @@ fn run_arch(fields: &[&str], out: &mut impl Write) {
         }
     }
     std::fs::remove_file(&path).ok();
+    // archives written by the analysis entry points of the library (one formula / the whole list):
+    // formula-i must reload to the result of formula i
+    let plain: Vec<String> = formulas.iter().filter(|f| !f.contains('%')).cloned().collect();
+    if !plain.is_empty() {
+        let runs: Vec<(String, Vec<String>)> = vec![
+            ("analyse_formula".to_string(), vec![plain[0].clone()]),
+            ("analyse_formulae".to_string(), plain.clone()),
+        ];
+        for (what, fs) in runs {
+            let apath = format!("{}/ana-{}-{}-{}.zip", work_dir(), std::process::id(), id, what);
+            let r = if what == "analyse_formula" {
+                analyse_formula(&w.bn, fs[0].clone(), PrintOptions::NoPrint, Some(apath.clone()), None)
+            } else {
+                analyse_formulae(&w.bn, fs.clone(), PrintOptions::NoPrint, Some(apath.clone()), None)
+            };
+            match r {
+                Err(e) => {
+                    // an invalid formula of the list is reported, not archived: nothing to compare
+                    if fs.iter().all(|f| {
+                        get_extended_symbolic_graph(&w.bn, 3)
+                            .and_then(|g| model_check_formula_dirty(f.as_str(), &g))
+                            .is_ok()
+                    }) {
+                        problems.push(format!("{what} failed on valid formulae: {}", clean(&e)));
+                    }
+                }
+                Ok(()) => {
+                    // the analysis builds its own graph: as many spare sets as the formulae need
+                    let need = fs
+                        .iter()
+                        .filter_map(|f| parse_and_minimize_hctl_formula(w.graph.symbolic_context(), f.as_str()).ok())
+                        .map(|t| collect_unique_hctl_vars(t).len())
+                        .max()
+                        .unwrap_or(0);
+                    match get_extended_symbolic_graph(&w.bn, need as u16) {
+                        Err(e) => problems.push(format!("graph: {}", clean(&e))),
+                        Ok(g) => match load_bdd_bundle(&apath, g.symbolic_context()) {
+                            Err(e) => problems.push(format!("{what}: archive does not reload: {}", clean(&e))),
+                            Ok(loaded) => {
+                                if loaded.len() != fs.len() {
+                                    problems.push(format!("{what}: {} formulae, {} archived sets", fs.len(), loaded.len()));
+                                }
+                                for (i, f) in fs.iter().enumerate() {
+                                    let want = model_check_formula_dirty(f.as_str(), &g);
+                                    match (loaded.get(&format!("formula-{i}")), want) {
+                                        (Some(s), Ok(x)) => {
+                                            if s.as_bdd() != x.as_bdd() {
+                                                problems.push(format!("{what}: formula-{i} is not the result of line {i}"));
+                                            }
+                                        }
+                                        (None, Ok(_)) => problems.push(format!("{what}: formula-{i} missing")),
+                                        _ => {}
+                                    }
+                                }
+                            }
+                        },
+                    }
+                }
+            }
+            std::fs::remove_file(&apath).ok();
+        }
+    }
     if problems.is_empty() {
         writeln!(out, "{id} OK {} sets, {} formulae", sets.len(), formulas.len()).unwrap();
     } else {
